@@ -35,7 +35,7 @@ var c14KeyCols = []string{"k1", "k2"}
 
 // ---------------------------------------------------------------- tokens
 
-func fbits(x float64) string { return fmt.Sprintf("f:%016x", math.Float64bits(x)) }
+func c14Fbits(x float64) string { return fmt.Sprintf("f:%016x", math.Float64bits(x)) }
 
 func c14FloatOf(tok string) float64 {
 	b, err := strconv.ParseUint(strings.TrimPrefix(tok, "f:"), 16, 64)
@@ -60,7 +60,7 @@ func c14ValTok(v interface{}) string {
 		if x != x {
 			return "f:nan"
 		}
-		return fbits(x)
+		return c14Fbits(x)
 	case string:
 		return "s:" + hx(x)
 	case bool:
@@ -434,7 +434,7 @@ func c14PredTok(rng *rand.Rand, col int) string {
 	if rng.Intn(3) == 0 {
 		op = "lt"
 	}
-	return fmt.Sprintf("%d:%s:%s", col, op, fbits(consts[rng.Intn(len(consts))]))
+	return fmt.Sprintf("%d:%s:%s", col, op, c14Fbits(consts[rng.Intn(len(consts))]))
 }
 
 func c14GenCall(rng *rand.Rand, c *Case) []string {
@@ -445,7 +445,7 @@ func c14GenCall(rng *rand.Rand, c *Case) []string {
 		if rng.Intn(2) == 0 {
 			off = []string{"1", "2", "3", "2", "0"}[rng.Intn(5)]
 			if rng.Intn(2) == 0 {
-				d = []string{"const:" + fbits(-1), "col:1", "col:0", "const:s:" + hx("d")}[rng.Intn(4)]
+				d = []string{"const:" + c14Fbits(-1), "col:1", "col:0", "const:s:" + hx("d")}[rng.Intn(4)]
 				if rng.Intn(2) == 0 {
 					ign = []string{"t", "f"}[rng.Intn(2)]
 				}
@@ -456,7 +456,7 @@ func c14GenCall(rng *rand.Rand, c *Case) []string {
 	case k < 4:
 		d := "-"
 		if rng.Intn(2) == 0 {
-			d = []string{"const:" + fbits(0), "col:1"}[rng.Intn(2)]
+			d = []string{"const:" + c14Fbits(0), "col:1"}[rng.Intn(2)]
 		}
 		c.Stat = append(c.Stat, "fn-latest")
 		return []string{"latest", col, d}
@@ -549,7 +549,7 @@ func c14GenVal(rng *rand.Rand, numericOnly bool) string {
 	}
 	switch {
 	case k < 20:
-		return fbits([]float64{0, 1, 2, 3, 0.1, 0.2, 0.5, -1, 2.5, 1e10, 7}[rng.Intn(11)])
+		return c14Fbits([]float64{0, 1, 2, 3, 0.1, 0.2, 0.5, -1, 2.5, 1e10, 7}[rng.Intn(11)])
 	case k < 26:
 		return "i:" + strconv.Itoa([]int{0, 1, 2, 3, -2, 7}[rng.Intn(6)])
 	case k < 32:
@@ -584,9 +584,9 @@ func (c14) Gen(rng *rand.Rand, tier string, idx int) Case {
 			plain = c14PredTok(rng, 2)
 		}
 		f := c14GenField(rng, &c, true)
-		cmp := "gt:" + fbits([]float64{0, 1, 2}[rng.Intn(3)])
+		cmp := "gt:" + c14Fbits([]float64{0, 1, 2}[rng.Intn(3)])
 		if rng.Intn(4) == 0 {
-			cmp = "lt:" + fbits(2)
+			cmp = "lt:" + c14Fbits(2)
 		}
 		if f[4] == "hadchanged" {
 			cmp = "bool"
@@ -635,7 +635,7 @@ func (c14) Gen(rng *rand.Rand, tier string, idx int) Case {
 			}
 		}
 		last[p] = [2]string{v, u}
-		g := fbits([]float64{0, 1, 2, 3, 1.5}[rng.Intn(5)])
+		g := c14Fbits([]float64{0, 1, 2, 3, 1.5}[rng.Intn(5)])
 		switch rng.Intn(12) {
 		case 0:
 			g = "n"
